@@ -237,23 +237,17 @@ theorem C06_calls (evs : List Event) (now : Ms) (recs : List Rec) :
           | none => rfl
           | some e => exact ⟨_, rfl, refreshed_markOne_refresh now recs e⟩
 
-/-- **C06 (who is called).**  Listeners are notified on a copy of the listener set: in each of the two rounds
-every listener registered at the start of that round is called exactly once, whatever the callbacks do to the
-set (adding or removing listeners, themselves included); a listener added during the first round is called in
-the second round only, one removed during the first round in the first round only. -/
-theorem C06_listeners (ls : List Nat) (hnodup : ls.Nodup) (react1 react2 : Nat → List ListenerAct) :
-    let r := notifyDatagram ls react1 react2
-    r.1 = ls ∧ (∀ l, r.1.count l = if l ∈ ls then 1 else 0)
-    ∧ r.2.1 = (notifyRound ls react1).2 := by
-  refine ⟨rfl, fun l => ?_, rfl⟩
-  show ls.count l = _
-  exact List.Nodup.count hnodup
+/-! ### who is called -/
+
+section
+variable {catches : Bool}
 
 /-- the live listener set stays a set under callbacks -/
-theorem applyAct_nodup (ls : List Nat) (h : ls.Nodup) (a : ListenerAct) : (applyAct ls a).Nodup := by
+theorem applyAct_nodup (ls : List Nat) (h : ls.Nodup) (a : ListenerAct) (ls' : List Nat) (ha : applyAct catches ls a = .ok ls') : ls'.Nodup := by
   cases a with
   | add l =>
-    simp only [applyAct]
+    simp only [applyAct, Except.ok.injEq] at ha
+    subst ha
     split
     · exact h
     · rename_i hc
@@ -263,41 +257,595 @@ theorem applyAct_nodup (ls : List Nat) (h : ls.Nodup) (a : ListenerAct) : (apply
       simp only [List.mem_singleton] at hb; subst hb
       intro heq; subst heq
       exact hc (by simpa using ha)
-  | remove l => exact List.Nodup.sublist List.filter_sublist h
+  | remove l =>
+    simp only [applyAct] at ha
+    split at ha
+    · cases ha; exact List.Nodup.sublist List.filter_sublist h
+    · split at ha
+      · cases ha; exact h
+      · cases ha
 
-theorem notifyRound_nodup (ls : List Nat) (h : ls.Nodup) (react : Nat → List ListenerAct) : (notifyRound ls react).2.Nodup := by
-  unfold notifyRound
-  simp only []
-  have gen : ∀ (todo live : List Nat), live.Nodup → (todo.foldl (fun live l => (react l).foldl applyAct live) live).Nodup := by
-    intro todo
-    induction todo with
-    | nil => intro live hl; exact hl
-    | cons l t ih =>
-      intro live hl
+theorem runActs_nodup (live : List Nat) (h : live.Nodup) (acts : List ListenerAct) : (runActs catches live acts).1.Nodup := by
+  unfold runActs
+  have gen : ∀ (st : List Nat × Option PyExc), st.1.Nodup →
+      (acts.foldl (fun st a => match st.2 with
+        | some _ => st
+        | none => match applyAct catches st.1 a with
+          | .ok l => (l, none)
+          | .error e => (st.1, some e)) st).1.Nodup := by
+    induction acts with
+    | nil => intro st hs; exact hs
+    | cons a t ih =>
+      intro st hs
       simp only [List.foldl_cons]
       apply ih
-      have g2 : ∀ (acts : List ListenerAct) (live : List Nat), live.Nodup → (acts.foldl applyAct live).Nodup := by
-        intro acts
-        induction acts with
-        | nil => intro live hl; exact hl
-        | cons a t2 ih2 => intro live hl; exact ih2 _ (applyAct_nodup live hl a)
-      exact g2 _ _ hl
-  exact gen ls ls h
+      cases h2 : st.2 with
+      | some e => simp only []; exact hs
+      | none =>
+        simp only []
+        cases h3 : applyAct catches st.1 a with
+        | ok l => exact applyAct_nodup st.1 hs a l h3
+        | error e => exact hs
+  exact gen (live, none) h
 
-/-- so in the second round, too, every listener registered at its start is called exactly once -/
-theorem C06_listeners_round2 (ls : List Nat) (hnodup : ls.Nodup) (react1 react2 : Nat → List ListenerAct) (l : Nat) :
-    (notifyDatagram ls react1 react2).2.1.count l = if l ∈ (notifyRound ls react1).2 then 1 else 0 := by
-  show (notifyRound ls react1).2.count l = _
-  exact List.Nodup.count (notifyRound_nodup ls hnodup react1)
+/-- the loop of `async_updates` / `async_updates_complete` from an arbitrary intermediate state -/
+def roundFrom (catches : Bool) (react : Nat → List ListenerAct) (todo : List Nat) (st : Round) : Round :=
+  todo.foldl (fun st l =>
+    match st.err with
+    | some _ => st
+    | none =>
+      let r := runActs catches st.live (react l)
+      { called := st.called ++ [l], live := r.1, err := r.2 }) st
+
+theorem roundFrom_err (react : Nat → List ListenerAct) (todo : List Nat) (st : Round) (e : PyExc) (h : st.err = some e) :
+    roundFrom catches react todo st = st := by
+  induction todo with
+  | nil => rfl
+  | cons l t ih =>
+    unfold roundFrom at ih ⊢
+    simp only [List.foldl_cons, h]
+    exact ih
+
+theorem roundFrom_spec (react : Nat → List ListenerAct) (todo : List Nat) (st : Round) (hn : st.live.Nodup) :
+    ∃ k, (roundFrom catches react todo st).called = st.called ++ k ∧ k <+: todo
+      ∧ ((roundFrom catches react todo st).err = none → st.err = none ∧ k = todo)
+      ∧ (roundFrom catches react todo st).live.Nodup := by
+  induction todo generalizing st with
+  | nil => exact ⟨[], by simp [roundFrom], List.prefix_refl _, fun h => ⟨h, rfl⟩, hn⟩
+  | cons l t ih =>
+    cases he : st.err with
+    | some e =>
+      rw [roundFrom_err react (l :: t) st e he]
+      exact ⟨[], by simp, List.nil_prefix, (fun h => by rw [he] at h; cases h), hn⟩
+    | none =>
+      have hstep : roundFrom catches react (l :: t) st
+          = roundFrom catches react t { called := st.called ++ [l], live := (runActs catches st.live (react l)).1, err := (runActs catches st.live (react l)).2 } := by
+        unfold roundFrom
+        simp only [List.foldl_cons, he]
+      rw [hstep]
+      obtain ⟨k, h1, h2, h3, h4⟩ := ih { called := st.called ++ [l], live := (runActs catches st.live (react l)).1, err := (runActs catches st.live (react l)).2 }
+        (runActs_nodup st.live hn (react l))
+      refine ⟨l :: k, by rw [h1]; simp, ?_, fun h => ⟨rfl, by rw [(h3 h).2]⟩, h4⟩
+      exact List.prefix_cons_inj l |>.2 h2
+
+/-! ### the snapshot semantics, said out loud -/
+
+theorem applyAct_mem_of_ne {live live' : List Nat} {a : ListenerAct} {x : Nat} (h : applyAct catches live a = .ok live')
+    (hx : x ∈ live) (hne : a ≠ .remove x) : x ∈ live' := by
+  cases a with
+  | add l =>
+    simp only [applyAct, Except.ok.injEq] at h; subst h
+    split
+    · exact hx
+    · exact List.mem_append_left _ hx
+  | remove l =>
+    simp only [applyAct] at h
+    split at h
+    · cases h
+      rw [List.mem_filter]
+      refine ⟨hx, ?_⟩
+      have : x ≠ l := fun e => hne (by rw [e])
+      simpa using this
+    · split at h
+      · cases h; exact hx
+      · cases h
+
+theorem applyAct_not_mem_of_ne {live live' : List Nat} {a : ListenerAct} {x : Nat} (h : applyAct catches live a = .ok live')
+    (hx : x ∉ live) (hne : a ≠ .add x) : x ∉ live' := by
+  cases a with
+  | add l =>
+    simp only [applyAct, Except.ok.injEq] at h; subst h
+    split
+    · exact hx
+    · intro hm
+      rcases List.mem_append.1 hm with hm | hm
+      · exact hx hm
+      · simp only [List.mem_singleton] at hm; exact hne (by rw [hm])
+  | remove l =>
+    simp only [applyAct] at h
+    split at h
+    · cases h; intro hm; exact hx (List.mem_filter.1 hm).1
+    · split at h
+      · cases h; exact hx
+      · cases h
+
+/-- the body of one callback, from an intermediate state -/
+def actsFrom (catches : Bool) (acts : List ListenerAct) (st : List Nat × Option PyExc) : List Nat × Option PyExc :=
+  acts.foldl (fun st a =>
+    match st.2 with
+    | some _ => st
+    | none => match applyAct catches st.1 a with
+      | .ok l => (l, none)
+      | .error e => (st.1, some e)) st
+
+theorem runActs_eq (live : List Nat) (acts : List ListenerAct) : runActs catches live acts = actsFrom catches acts (live, none) := rfl
+
+theorem actsFrom_err (acts : List ListenerAct) (st : List Nat × Option PyExc) (e : PyExc) (h : st.2 = some e) : actsFrom catches acts st = st := by
+  induction acts with
+  | nil => rfl
+  | cons a t ih => unfold actsFrom at ih ⊢; simp only [List.foldl_cons, h]; exact ih
+
+theorem actsFrom_persist (acts : List ListenerAct) (st : List Nat × Option PyExc) (x : Nat) (hx : x ∈ st.1)
+    (hno : ListenerAct.remove x ∉ acts) : x ∈ (actsFrom catches acts st).1 := by
+  induction acts generalizing st with
+  | nil => exact hx
+  | cons a t ih =>
+    have hno' : ListenerAct.remove x ∉ t := fun h => hno (List.mem_cons_of_mem _ h)
+    have hne : a ≠ .remove x := fun h => hno (by rw [h]; simp)
+    unfold actsFrom at ih ⊢
+    simp only [List.foldl_cons]
+    apply ih _ _ hno'
+    cases h2 : st.2 with
+    | some e => exact hx
+    | none =>
+      simp only []
+      cases h3 : applyAct catches st.1 a with
+      | ok l => exact applyAct_mem_of_ne h3 hx hne
+      | error e => exact hx
+
+theorem actsFrom_absent (acts : List ListenerAct) (st : List Nat × Option PyExc) (x : Nat) (hx : x ∉ st.1)
+    (hno : ListenerAct.add x ∉ acts) : x ∉ (actsFrom catches acts st).1 := by
+  induction acts generalizing st with
+  | nil => exact hx
+  | cons a t ih =>
+    have hno' : ListenerAct.add x ∉ t := fun h => hno (List.mem_cons_of_mem _ h)
+    have hne : a ≠ .add x := fun h => hno (by rw [h]; simp)
+    unfold actsFrom at ih ⊢
+    simp only [List.foldl_cons]
+    apply ih _ _ hno'
+    cases h2 : st.2 with
+    | some e => exact hx
+    | none =>
+      simp only []
+      cases h3 : applyAct catches st.1 a with
+      | ok l => exact applyAct_not_mem_of_ne h3 hx hne
+      | error e => exact hx
+
+theorem actsFrom_added (acts : List ListenerAct) (st : List Nat × Option PyExc) (x : Nat)
+    (hadd : ListenerAct.add x ∈ acts) (hno : ListenerAct.remove x ∉ acts) (hok : (actsFrom catches acts st).2 = none) :
+    x ∈ (actsFrom catches acts st).1 := by
+  induction acts generalizing st with
+  | nil => cases hadd
+  | cons a t ih =>
+    have hno' : ListenerAct.remove x ∉ t := fun h => hno (List.mem_cons_of_mem _ h)
+    have hst : st.2 = none := by
+      cases h2 : st.2 with
+      | none => rfl
+      | some e => rw [actsFrom_err _ st e h2, h2] at hok; cases hok
+    have hstep : actsFrom catches (a :: t) st = actsFrom catches t (match applyAct catches st.1 a with | .ok l => (l, none) | .error e => (st.1, some e)) := by
+      unfold actsFrom; simp only [List.foldl_cons, hst]
+    rw [hstep] at hok ⊢
+    cases h3 : applyAct catches st.1 a with
+    | error e =>
+      rw [h3] at hok; simp only [] at hok
+      rw [actsFrom_err _ _ e rfl] at hok; cases hok
+    | ok l =>
+      rw [h3] at hok; simp only [] at hok ⊢
+      rcases List.mem_cons.1 hadd with heq | hin
+      · apply actsFrom_persist _ _ _ _ hno'
+        rw [← heq] at h3
+        simp only [applyAct, Except.ok.injEq] at h3; subst h3
+        simp only []
+        split
+        · rename_i hc; simpa using hc
+        · simp
+      · exact ih _ hin hno' hok
+
+theorem actsFrom_removed (acts : List ListenerAct) (st : List Nat × Option PyExc) (x : Nat)
+    (hrem : ListenerAct.remove x ∈ acts) (hno : ListenerAct.add x ∉ acts) (hok : (actsFrom catches acts st).2 = none) :
+    x ∉ (actsFrom catches acts st).1 := by
+  induction acts generalizing st with
+  | nil => cases hrem
+  | cons a t ih =>
+    have hno' : ListenerAct.add x ∉ t := fun h => hno (List.mem_cons_of_mem _ h)
+    have hst : st.2 = none := by
+      cases h2 : st.2 with
+      | none => rfl
+      | some e => rw [actsFrom_err _ st e h2, h2] at hok; cases hok
+    have hstep : actsFrom catches (a :: t) st = actsFrom catches t (match applyAct catches st.1 a with | .ok l => (l, none) | .error e => (st.1, some e)) := by
+      unfold actsFrom; simp only [List.foldl_cons, hst]
+    rw [hstep] at hok ⊢
+    cases h3 : applyAct catches st.1 a with
+    | error e =>
+      rw [h3] at hok; simp only [] at hok
+      rw [actsFrom_err _ _ e rfl] at hok; cases hok
+    | ok l =>
+      rw [h3] at hok; simp only [] at hok ⊢
+      rcases List.mem_cons.1 hrem with heq | hin
+      · apply actsFrom_absent _ _ _ _ hno'
+        rw [← heq] at h3
+        simp only [applyAct] at h3
+        split at h3
+        · cases h3; simp
+        · rename_i hnc
+          split at h3
+          · cases h3; simpa using hnc
+          · cases h3
+      · exact ih _ hin hno' hok
+
+theorem roundFrom_ok_of_ok (react : Nat → List ListenerAct) (todo : List Nat) (st : Round)
+    (h : (roundFrom catches react todo st).err = none) : st.err = none := by
+  cases he : st.err with
+  | none => rfl
+  | some e => rw [roundFrom_err react todo st e he, he] at h; cases h
+
+theorem roundFrom_cons (react : Nat → List ListenerAct) (l : Nat) (t : List Nat) (st : Round) (he : st.err = none) :
+    roundFrom catches react (l :: t) st
+      = roundFrom catches react t { called := st.called ++ [l], live := (runActs catches st.live (react l)).1, err := (runActs catches st.live (react l)).2 } := by
+  unfold roundFrom; simp only [List.foldl_cons, he]
+
+theorem roundFrom_persist (react : Nat → List ListenerAct) (todo : List Nat) (st : Round) (x : Nat) (hx : x ∈ st.live)
+    (hno : ∀ l ∈ todo, ListenerAct.remove x ∉ react l) : x ∈ (roundFrom catches react todo st).live := by
+  induction todo generalizing st with
+  | nil => exact hx
+  | cons l t ih =>
+    cases he : st.err with
+    | some e => rw [roundFrom_err react _ st e he]; exact hx
+    | none =>
+      rw [roundFrom_cons react l t st he]
+      exact ih _ (by rw [runActs_eq]; exact actsFrom_persist _ _ x hx (hno l (by simp))) (fun l' hl' => hno l' (by simp [hl']))
+
+theorem roundFrom_absent (react : Nat → List ListenerAct) (todo : List Nat) (st : Round) (x : Nat) (hx : x ∉ st.live)
+    (hno : ∀ l ∈ todo, ListenerAct.add x ∉ react l) : x ∉ (roundFrom catches react todo st).live := by
+  induction todo generalizing st with
+  | nil => exact hx
+  | cons l t ih =>
+    cases he : st.err with
+    | some e => rw [roundFrom_err react _ st e he]; exact hx
+    | none =>
+      rw [roundFrom_cons react l t st he]
+      exact ih _ (by rw [runActs_eq]; exact actsFrom_absent _ _ x hx (hno l (by simp))) (fun l' hl' => hno l' (by simp [hl']))
+
+/-- with the copy, the round is the plain loop over the snapshot -/
+theorem notifyRoundWith_eq_roundFrom (ls : List Nat) (react : Nat → List ListenerAct) :
+    notifyRoundWith true catches ls react = roundFrom catches react ls { called := [], live := ls, err := none } := by
+  unfold notifyRoundWith roundFrom
+  simp
+  rfl
+
+theorem roundFrom_called_ok (react : Nat → List ListenerAct) (todo : List Nat) (st : Round)
+    (h : (roundFrom catches react todo st).err = none) : (roundFrom catches react todo st).called = st.called ++ todo := by
+  induction todo generalizing st with
+  | nil => simp [roundFrom]
+  | cons l t ih =>
+    have he := roundFrom_ok_of_ok react _ st h
+    rw [roundFrom_cons react l t st he] at h ⊢
+    rw [ih _ h]; simp
+
+/-- whatever `async_remove_listener` catches: the listeners called are an initial segment of the snapshot taken at the start
+of the round, each at most once; if the round does not raise it is the whole snapshot, each exactly once; the live set stays
+duplicate-free -/
+theorem round_general (ls : List Nat) (hnodup : ls.Nodup) (react : Nat → List ListenerAct) :
+    (notifyRoundWith true catches ls react).called <+: ls
+    ∧ (∀ l, (notifyRoundWith true catches ls react).called.count l ≤ 1)
+    ∧ ((notifyRoundWith true catches ls react).err = none →
+        (notifyRoundWith true catches ls react).called = ls
+        ∧ ∀ l, (notifyRoundWith true catches ls react).called.count l = if l ∈ ls then 1 else 0)
+    ∧ (notifyRoundWith true catches ls react).live.Nodup := by
+  obtain ⟨k, h1, h2, h3, h4⟩ := roundFrom_spec (catches := catches) react ls { called := [], live := ls, err := none } hnodup
+  rw [notifyRoundWith_eq_roundFrom]
+  have hcalled : (roundFrom catches react ls { called := [], live := ls, err := none }).called = k := by
+    rw [h1]; simp
+  have hknodup : k.Nodup := List.Nodup.sublist h2.sublist hnodup
+  refine ⟨hcalled ▸ h2, fun l => ?_, fun herr => ?_, h4⟩
+  · rw [hcalled]; exact List.nodup_iff_count.1 hknodup l
+  · have hk := (h3 herr).2
+    rw [hcalled, hk]
+    exact ⟨rfl, fun l => List.Nodup.count hnodup⟩
+
+/-- snapshot semantics of a round, whatever `async_remove_listener` catches.  Whatever the callbacks do:
+* a listener that is not in the snapshot is not called in this round, even if a callback adds it;
+* if the round does not raise, a listener of the snapshot is called even if a callback removes it;
+* afterwards (no raise): a listener some callback added and none removed is registered — it will be called from the next
+  round on; a listener some callback removed and none added is not; a listener nobody touched is registered iff it was. -/
+theorem snapshot_semantics_general (ls : List Nat) (react : Nat → List ListenerAct) (x : Nat) :
+    (x ∉ ls → x ∉ (notifyRoundWith true catches ls react).called)
+    ∧ ((notifyRoundWith true catches ls react).err = none → x ∈ ls → x ∈ (notifyRoundWith true catches ls react).called)
+    ∧ ((notifyRoundWith true catches ls react).err = none → (∃ l ∈ ls, ListenerAct.add x ∈ react l) → (∀ l ∈ ls, ListenerAct.remove x ∉ react l) →
+        x ∈ (notifyRoundWith true catches ls react).live)
+    ∧ ((notifyRoundWith true catches ls react).err = none → (∃ l ∈ ls, ListenerAct.remove x ∈ react l) → (∀ l ∈ ls, ListenerAct.add x ∉ react l) →
+        x ∉ (notifyRoundWith true catches ls react).live)
+    ∧ ((∀ l ∈ ls, ListenerAct.add x ∉ react l ∧ ListenerAct.remove x ∉ react l) → (x ∈ (notifyRoundWith true catches ls react).live ↔ x ∈ ls)) := by
+  rw [notifyRoundWith_eq_roundFrom]
+  refine ⟨?_, ?_, ?_, ?_, ?_⟩
+  · intro hx hc
+    -- called is a prefix of the snapshot (no Nodup needed for this direction)
+    have gen : ∀ (todo : List Nat) (st : Round), ∀ y ∈ (roundFrom catches react todo st).called, y ∈ st.called ∨ y ∈ todo := by
+      intro todo
+      induction todo with
+      | nil => intro st y hy; exact Or.inl hy
+      | cons l t ih =>
+        intro st y hy
+        cases he : st.err with
+        | some e => rw [roundFrom_err react _ st e he] at hy; exact Or.inl hy
+        | none =>
+          rw [roundFrom_cons react l t st he] at hy
+          rcases ih _ y hy with h | h
+          · simp only [List.mem_append, List.mem_singleton] at h
+            rcases h with h | h
+            · exact Or.inl h
+            · exact Or.inr (by simp [h])
+          · exact Or.inr (List.mem_cons_of_mem _ h)
+    rcases gen ls _ x hc with h | h
+    · cases h
+    · exact hx h
+  · intro herr hx
+    have gen : ∀ (todo : List Nat) (st : Round), (roundFrom catches react todo st).err = none → ∀ y ∈ todo, y ∈ (roundFrom catches react todo st).called := by
+      intro todo
+      induction todo with
+      | nil => intro st _ y hy; cases hy
+      | cons l t ih =>
+        intro st hok y hy
+        have he := roundFrom_ok_of_ok react _ st hok
+        rw [roundFrom_cons react l t st he] at hok ⊢
+        rcases List.mem_cons.1 hy with rfl | hy'
+        · -- called only grows
+          have grow : ∀ (todo : List Nat) (st : Round), ∀ z ∈ st.called, z ∈ (roundFrom catches react todo st).called := by
+            intro todo
+            induction todo with
+            | nil => intro st z hz; exact hz
+            | cons l' t' ih' =>
+              intro st z hz
+              cases he' : st.err with
+              | some e => rw [roundFrom_err react _ st e he']; exact hz
+              | none => rw [roundFrom_cons react l' t' st he']; exact ih' _ z (by simp [hz])
+          exact grow t _ y (by simp)
+        · exact ih _ hok y hy'
+    exact gen ls _ herr x hx
+  · intro herr ⟨l0, hl0, hadd⟩ hno
+    have gen : ∀ (todo : List Nat) (st : Round), (roundFrom catches react todo st).err = none → l0 ∈ todo →
+        (∀ l ∈ todo, ListenerAct.remove x ∉ react l) → x ∈ (roundFrom catches react todo st).live := by
+      intro todo
+      induction todo with
+      | nil => intro st _ h; cases h
+      | cons l t ih =>
+        intro st hok hin hno
+        have he := roundFrom_ok_of_ok react _ st hok
+        rw [roundFrom_cons react l t st he] at hok ⊢
+        rcases List.mem_cons.1 hin with heq | hin'
+        · subst heq
+          have hok2 := roundFrom_ok_of_ok react t _ hok
+          simp only [] at hok2
+          apply roundFrom_persist react t _ x _ (fun l' hl' => hno l' (by simp [hl']))
+          rw [runActs_eq] at hok2 ⊢
+          exact actsFrom_added _ _ x hadd (hno l0 (by simp)) hok2
+        · exact ih _ hok hin' (fun l' hl' => hno l' (by simp [hl']))
+    exact gen ls _ herr hl0 hno
+  · intro herr ⟨l0, hl0, hrem⟩ hno
+    have gen : ∀ (todo : List Nat) (st : Round), (roundFrom catches react todo st).err = none → l0 ∈ todo →
+        (∀ l ∈ todo, ListenerAct.add x ∉ react l) → x ∉ (roundFrom catches react todo st).live := by
+      intro todo
+      induction todo with
+      | nil => intro st _ h; cases h
+      | cons l t ih =>
+        intro st hok hin hno
+        have he := roundFrom_ok_of_ok react _ st hok
+        rw [roundFrom_cons react l t st he] at hok ⊢
+        rcases List.mem_cons.1 hin with heq | hin'
+        · subst heq
+          have hok2 := roundFrom_ok_of_ok react t _ hok
+          simp only [] at hok2
+          apply roundFrom_absent react t _ x _ (fun l' hl' => hno l' (by simp [hl']))
+          rw [runActs_eq] at hok2 ⊢
+          exact actsFrom_removed _ _ x hrem (hno l0 (by simp)) hok2
+        · exact ih _ hok hin' (fun l' hl' => hno l' (by simp [hl']))
+    exact gen ls _ herr hl0 hno
+  · intro hno
+    constructor
+    · intro hx
+      by_cases hin : x ∈ ls
+      · exact hin
+      · exact absurd hx (roundFrom_absent react ls _ x hin (fun l hl => (hno l hl).1))
+    · intro hx
+      exact roundFrom_persist react ls _ x hx (fun l hl => (hno l hl).2)
+
+end
+
+/-! #### the code as it is (D18 repaired): a round never raises -/
+
+theorem applyAct_true_ok (ls : List Nat) (a : ListenerAct) : ∃ l, applyAct true ls a = .ok l := by
+  cases a with
+  | add l => exact ⟨_, rfl⟩
+  | remove l =>
+    simp only [applyAct]
+    split
+    · exact ⟨_, rfl⟩
+    · exact ⟨_, rfl⟩
+
+theorem actsFrom_true_ok (acts : List ListenerAct) (st : List Nat × Option PyExc) (h : st.2 = none) :
+    (actsFrom true acts st).2 = none := by
+  induction acts generalizing st with
+  | nil => exact h
+  | cons a t ih =>
+    unfold actsFrom at ih ⊢
+    simp only [List.foldl_cons, h]
+    obtain ⟨l, hl⟩ := applyAct_true_ok st.1 a
+    rw [hl]
+    exact ih _ rfl
+
+theorem roundFrom_true_ok (react : Nat → List ListenerAct) (todo : List Nat) (st : Round) (h : st.err = none) :
+    (roundFrom true react todo st).err = none := by
+  induction todo generalizing st with
+  | nil => exact h
+  | cons l t ih =>
+    rw [roundFrom_cons react l t st h]
+    apply ih
+    show (runActs true st.live (react l)).2 = none
+    rw [runActs_eq]
+    exact actsFrom_true_ok _ _ rfl
+
+/-- removing a listener that is not registered is a logged no-op: no callback can make a round raise -/
+theorem notifyRound_ok (ls : List Nat) (react : Nat → List ListenerAct) : (notifyRound ls react).err = none := by
+  unfold notifyRound
+  rw [notifyRoundWith_eq_roundFrom]
+  exact roundFrom_true_ok react ls _ rfl
+
+/-- **C06 (who is called), the sentence**: in a notification round every listener registered at its start (the snapshot) is
+called exactly once, whatever the callbacks do to the listener set.  `catches`: does `async_remove_listener` catch the
+`KeyError` of `set.remove`? -/
+def C06_listeners_statement (catches : Bool) : Prop :=
+  ∀ (ls : List Nat), ls.Nodup → ∀ react : Nat → List ListenerAct, ∀ l,
+    (notifyRoundWith true catches ls react).called.count l = if l ∈ ls then 1 else 0
+
+/-- **C06 (who is called).**  Listeners are notified on a copy of the listener set: in a round every listener registered
+at its start is called exactly once, in the snapshot's order, whatever the callbacks do to the set — add listeners, remove
+listeners (themselves, each other, twice, or ones that were never registered); the round never raises and the live set
+stays a set.  (`notifyRound` is the round with the two facts the translator reads off the code: the set is copied, and
+`async_remove_listener` catches `KeyError`.) -/
+theorem C06_listeners (ls : List Nat) (hnodup : ls.Nodup) (react : Nat → List ListenerAct) :
+    (notifyRound ls react).called = ls
+    ∧ (∀ l, (notifyRound ls react).called.count l = if l ∈ ls then 1 else 0)
+    ∧ (notifyRound ls react).err = none
+    ∧ (notifyRound ls react).live.Nodup := by
+  have hok := notifyRound_ok ls react
+  obtain ⟨_, _, h3, h4⟩ := round_general (catches := true) ls hnodup react
+  exact ⟨(h3 hok).1, (h3 hok).2, hok, h4⟩
+
+theorem C06_listeners_full : C06_listeners_statement true :=
+  fun ls hn react l => (C06_listeners ls hn react).2.1 l
+
+/-- **D18, before the repair** (1ae3781): with `except ValueError` only, the sentence was false.  Listener 1 removes listener 2;
+listener 2 — still called, the set was copied — removes itself, as a browser's `_async_cancel` or a lookup's `finally`
+would: the round ended there and listener 3 was never called. -/
+theorem C06_listeners_before_fix_refuted : ¬ C06_listeners_statement false := by
+  intro h
+  have := h [1, 2, 3] (by decide) (fun l => if l = 1 then [.remove 2] else if l = 2 then [.remove 2] else []) 3
+  revert this
+  decide
+
+/-- … and the datagram was lost: its new record was never cached, no `async_update_records_complete` was delivered, and the
+exception propagated out of `async_updates_from_response`; with the repair the same datagram is delivered completely -/
+theorem C06_remove_absent_aborted_ingestion_before_fix :
+    (∃ d, deliverWith true true false id id {} [1, 2, 3] 1000 [⟨"a.local.", 1, 1, false, 120, 0, .addr [10, 0, 0, 1] none⟩]
+        (fun l => if l = 1 then [.remove 2] else if l = 2 then [.remove 2] else []) (fun _ => []) = .ok d
+      ∧ d.err = some .keyError ∧ d.round1 = [1, 2] ∧ d.round2 = []
+      ∧ d.cache.getUnique id ⟨"a.local.", 1, 1, false, 120, 0, .addr [10, 0, 0, 1] none⟩ = none)
+    ∧ (∃ d, deliverWith true true true id id {} [1, 2, 3] 1000 [⟨"a.local.", 1, 1, false, 120, 0, .addr [10, 0, 0, 1] none⟩]
+        (fun l => if l = 1 then [.remove 2] else if l = 2 then [.remove 2] else []) (fun _ => []) = .ok d
+      ∧ d.err = none ∧ d.round1 = [1, 2, 3] ∧ d.round2 = [1, 3]
+      ∧ (d.cache.getUnique id ⟨"a.local.", 1, 1, false, 120, 0, .addr [10, 0, 0, 1] none⟩).isSome = true) :=
+  ⟨⟨_, rfl, by decide, by decide, by decide, by decide⟩, ⟨_, rfl, by decide, by decide, by decide, by decide⟩⟩
+
+/-- **C06 (the two rounds of a datagram).**  If the datagram has updates, round 1 (`async_update_records`) is the snapshot of
+the listener set at arrival, round 2 (`async_update_records_complete`) the snapshot of the set as round 1 left it — so a
+listener added during round 1 gets the complete call only, one removed during round 1 the update call only — nothing
+raises, and the cache at the end is the post-state; without updates nobody is called. -/
+theorem C06_deliver_rounds (order : List Nat → List Nat) (c : Cache) (ls : List Nat) (now : Ms) (recs : List Rec)
+    (react1 react2 : Nat → List ListenerAct) (d : Delivery) (hd : deliver lower order c ls now recs react1 react2 = .ok d) :
+    d.err = none ∧ d.cache = d.out.cache
+    ∧ match d.out.call1 with
+      | none => d.round1 = [] ∧ d.round2 = []
+      | some _ => d.round1 = order ls ∧ d.round2 = order (notifyRound (order ls) react1).live := by
+  unfold deliver deliverWith at hd
+  have hdef : ∀ (l : List Nat) (r : Nat → List ListenerAct), notifyRoundWith true true l r = notifyRound l r := fun _ _ => rfl
+  simp only [updates_iterates_copy_eq, complete_iterates_copy_eq, remove_listener_catches_keyerror_eq, hdef] at hd
+  have hcalled : ∀ (l : List Nat) (r : Nat → List ListenerAct), (notifyRound l r).called = l := by
+    intro l r
+    have h := notifyRound_ok l r
+    unfold notifyRound at h ⊢
+    rw [notifyRoundWith_eq_roundFrom] at h ⊢
+    rw [roundFrom_called_ok r l _ h]; simp
+  cases hi : ingest lower (Cache.ops lower) c now recs with
+  | error e => rw [hi] at hd; cases hd
+  | ok out =>
+    rw [hi] at hd
+    simp only [bind, Except.bind] at hd
+    cases hc : out.call1 with
+    | none =>
+      rw [hc] at hd
+      simp only [pure, Except.pure, Except.ok.injEq] at hd
+      subst hd
+      simp [hc]
+    | some call =>
+      rw [hc] at hd
+      simp only [notifyRound_ok] at hd
+      simp only [pure, Except.pure, Except.ok.injEq] at hd
+      subst hd
+      simp [hc, hcalled, notifyRound_ok]
+
+/-- **C06 (snapshot semantics of a round).**  Whatever the callbacks do:
+* a listener that is not in the snapshot is not called in this round, even if a callback adds it;
+* a listener of the snapshot is called even if a callback removes it;
+* afterwards a listener some callback added and none removed is registered — it will be called from the next round on; a
+  listener some callback removed and none added is not; a listener nobody touched is registered iff it was. -/
+theorem C06_snapshot_semantics (ls : List Nat) (react : Nat → List ListenerAct) (x : Nat) :
+    (x ∉ ls → x ∉ (notifyRound ls react).called)
+    ∧ (x ∈ ls → x ∈ (notifyRound ls react).called)
+    ∧ ((∃ l ∈ ls, ListenerAct.add x ∈ react l) → (∀ l ∈ ls, ListenerAct.remove x ∉ react l) → x ∈ (notifyRound ls react).live)
+    ∧ ((∃ l ∈ ls, ListenerAct.remove x ∈ react l) → (∀ l ∈ ls, ListenerAct.add x ∉ react l) → x ∉ (notifyRound ls react).live)
+    ∧ ((∀ l ∈ ls, ListenerAct.add x ∉ react l ∧ ListenerAct.remove x ∉ react l) → (x ∈ (notifyRound ls react).live ↔ x ∈ ls)) := by
+  have hok := notifyRound_ok ls react
+  obtain ⟨h1, h2, h3, h4, h5⟩ := snapshot_semantics_general (catches := true) ls react x
+  exact ⟨h1, h2 hok, h3 hok, h4 hok, h5⟩
+
+/-- what a delivery shows the listeners is the one `ingest` of C06_post_state / C06_calls: every listener of round 1 is
+handed `d.out.call1` (the pair list and the cache of `C06_calls`), every listener of round 2 sees `d.out.cache` -/
+theorem C06_delivery_out (order : List Nat → List Nat) (c : Cache) (ls : List Nat) (now : Ms) (recs : List Rec)
+    (react1 react2 : Nat → List ListenerAct) (d : Delivery) (hd : deliver lower order c ls now recs react1 react2 = .ok d) :
+    ingest lower (Cache.ops lower) c now recs = .ok d.out := by
+  unfold deliver deliverWith at hd
+  cases hi : ingest lower (Cache.ops lower) c now recs with
+  | error e => rw [hi] at hd; cases hd
+  | ok out =>
+    rw [hi] at hd
+    simp only [bind, Except.bind] at hd
+    cases hc : out.call1 with
+    | none => rw [hc] at hd; cases hd; rfl
+    | some call =>
+      rw [hc] at hd
+      simp only [] at hd
+      split at hd
+      · cases hd; rfl
+      · cases hd; rfl
 
 /-! non-vacuity -/
 
-/-- a goodbye, a refresh, a flush victim and a new record in one datagram -/
-example : ∃ (evs : List Event) (out : IngestOut Cache),
-    ingest id (Cache.ops id) (cacheAfter id evs) 5000
-      [⟨"a.local.", 1, 1, true, 120, 0, .addr [10, 0, 0, 2] none⟩, ⟨"h._x._tcp.local.", 16, 1, false, 0, 0, .txt []⟩] = .ok out
-    ∧ out.call1.isSome = true :=
-  ⟨[.datagram 1000 [⟨"a.local.", 1, 1, true, 120, 0, .addr [10, 0, 0, 1] none⟩, ⟨"h._x._tcp.local.", 16, 1, false, 4500, 0, .txt []⟩]], _, rfl, by decide⟩
+/-- the flush fires one millisecond after the second: an address cached at 1000 ms, a cache-flush sibling arriving at
+2001 ms marks it `(2001, 1)`; arriving at 2000 ms it leaves it alone -/
+example :
+    let a1 : Rec := ⟨"h.local.", 1, 1, true, 120, 0, .addr [10, 0, 0, 1] none⟩
+    let a2 : Rec := ⟨"h.local.", 1, 1, true, 120, 0, .addr [10, 0, 0, 2] none⟩
+    (((ingest id (Cache.ops id) (cacheAfter id [.datagram 1000 [a1]]) 2001 [a2]).toOption.bind
+        (fun o => o.cache.getUnique id a1)).map (fun e => (e.created, e.ttl)) = some (2001, 1))
+    ∧ (((ingest id (Cache.ops id) (cacheAfter id [.datagram 1000 [a1]]) 2000 [a2]).toOption.bind
+        (fun o => o.cache.getUnique id a1)).map (fun e => (e.created, e.ttl)) = some (1000, 120)) := by
+  decide
+
+/-- a goodbye, a refresh, a flush victim and a new record in one datagram: the TXT is withdrawn, the PTR refreshed (TTL
+floored to 1125), the old address marked `(5000, 1)`, the new address stored -/
+example :
+    let txt : Rec := ⟨"h._x._tcp.local.", 16, 1, false, 4500, 0, .txt []⟩
+    let ptr : Rec := ⟨"_x._tcp.local.", 12, 1, false, 4500, 0, .ptr "h._x._tcp.local."⟩
+    let a1 : Rec := ⟨"a.local.", 1, 1, true, 120, 0, .addr [10, 0, 0, 1] none⟩
+    let a2 : Rec := ⟨"a.local.", 1, 1, true, 120, 0, .addr [10, 0, 0, 2] none⟩
+    let res := (ingest id (Cache.ops id) (cacheAfter id [.datagram 1000 [txt, ptr, a1]]) 5000
+        [{ txt with ttl := 0 }, { ptr with ttl := 60 }, a2]).toOption
+    (res.bind (fun o => o.cache.getUnique id txt)) = none
+    ∧ (res.bind (fun o => o.cache.getUnique id ptr)).map (fun e => (e.created, e.ttl)) = some (5000, 1125)
+    ∧ (res.bind (fun o => o.cache.getUnique id a1)).map (fun e => (e.created, e.ttl)) = some (5000, 1)
+    ∧ (res.bind (fun o => o.cache.getUnique id a2)).map (fun e => (e.created, e.ttl)) = some (5000, 120)
+    ∧ (res.map (fun o => o.call1.isSome)) = some true := by
+  decide
 
 end
 end Zc
